@@ -4,136 +4,7 @@
 // the extracted Coq model.  Node/value identities are printed as #<serial>
 // (allocation serial numbers); the orchestrator renumbers them by first
 // appearance on both sides before comparing.
-#include "alloc_track.h"
-
-#include <cstdint>
-#include <cstdio>
-#include <cstring>
-#include <iostream>
-#include <map>
-#include <sstream>
-#include <string>
-#include <vector>
-
-#include "kvs.h"
-
-using namespace yakushima;
-
-static std::string unhex(const std::string& h) {
-    std::string k;
-    if (h == "-") return k;
-    for (std::size_t i = 0; i + 1 < h.size(); i += 2)
-        k.push_back(static_cast<char>(std::stoi(h.substr(i, 2), nullptr, 16)));
-    return k;
-}
-static std::string tohex(const void* p, std::size_t n) {
-    static const char* d = "0123456789abcdef";
-    if (n == 0) return "-";
-    std::string s;
-    const auto* b = static_cast<const unsigned char*>(p);
-    for (std::size_t i = 0; i < n; ++i) {
-        s.push_back(d[b[i] >> 4]);
-        s.push_back(d[b[i] & 15]);
-    }
-    return s;
-}
-static std::string tohex(const std::string& s) { return tohex(s.data(), s.size()); }
-static std::string hx(std::uint64_t v) {
-    char buf[32];
-    std::snprintf(buf, sizeof buf, "%llx", static_cast<unsigned long long>(v));
-    return buf;
-}
-static std::uint64_t rawv(node_version64_body b) {
-    std::uint64_t r;
-    std::memcpy(&r, &b, 8);
-    return r;
-}
-static std::string idof(const void* p) {
-    if (p == nullptr) return "-";
-    const auto* r = vtrack::find(p);
-    if (r == nullptr) return "#?" + hx(reinterpret_cast<std::uintptr_t>(p));
-    return "#" + std::to_string(r->serial);
-}
-// a node_version64* points inside a node: recover the node (version_ is a member of base_node)
-static std::string idof_nvp(node_version64* nvp, const std::map<node_version64*, base_node*>& m) {
-    auto it = m.find(nvp);
-    if (it == m.end()) return "#?nv";
-    return idof(it->second);
-}
-
-static scan_endpoint ep(const std::string& s) {
-    if (s == "EX") return scan_endpoint::EXCLUSIVE;
-    if (s == "IN") return scan_endpoint::INCLUSIVE;
-    return scan_endpoint::INF;
-}
-
-// key token: hex | "-" (empty) | "~N" (null data, size N)
-static std::string_view keyview(const std::string& tok, std::string& store) {
-    if (!tok.empty() && tok[0] == '~') {
-        return std::string_view(static_cast<const char*>(nullptr),
-                                static_cast<std::size_t>(std::stoul(tok.substr(1))));
-    }
-    store = unhex(tok);
-    return std::string_view(store);
-}
-
-// ---- structure walk ---------------------------------------------------------
-struct walker {
-    std::ostringstream& out;
-    std::map<node_version64*, base_node*>& nv2node;
-
-    void value_desc(value* vp) {
-        if (value::is_value_ptr(vp)) {
-            auto [p, sz, al] = value::get_gc_info(vp);
-            out << "V" << idof(p) << ":" << value::get_len(vp) << ":" << static_cast<std::size_t>(al)
-                << ":" << tohex(value::get_body(vp), value::get_len(vp) > 16 ? 16 : value::get_len(vp));
-        } else {
-            out << "W" << hx(reinterpret_cast<std::uintptr_t>(vp));
-        }
-    }
-
-    void walk(base_node* n, base_node* expect_parent) {
-        nv2node[n->get_version_ptr()] = n;
-        if (n->get_version_border()) {
-            auto* b = dynamic_cast<border_node*>(n);
-            permutation perm{b->get_permutation().get_body()};
-            out << "B " << idof(b) << " ver=" << hx(rawv(b->get_version())) << " perm="
-                << hx(perm.get_body()) << " parent=" << idof(b->get_parent())
-                << " pok=" << (b->get_parent() == expect_parent) << " prev=" << idof(b->get_prev())
-                << " next=" << idof(b->get_next()) << " n=" << static_cast<int>(perm.get_cnk()) << " [";
-            std::vector<base_node*> subs;
-            for (std::size_t r = 0; r < perm.get_cnk(); ++r) {
-                std::size_t i = perm.get_index_of_rank(r);
-                out << " " << i << ":" << hx(__builtin_bswap64(b->get_key_slice_at(i))) << ":"
-                    << static_cast<int>(b->get_key_length_at(i)) << ":";
-                link_or_value* lv = b->get_lv_at(i);
-                if (base_node* nl = lv->get_next_layer(); nl != nullptr) {
-                    out << "L" << idof(nl);
-                    subs.push_back(nl);
-                } else if (value* vp = lv->get_value(); vp != nullptr) {
-                    value_desc(vp);
-                } else {
-                    out << "E";
-                }
-            }
-            out << " ]\n";
-            for (auto* s : subs) walk(s, b);
-        } else {
-            auto* it = dynamic_cast<interior_node*>(n);
-            std::size_t nk = it->get_n_keys();
-            out << "I " << idof(it) << " ver=" << hx(rawv(it->get_version())) << " parent="
-                << idof(it->get_parent()) << " pok=" << (it->get_parent() == expect_parent)
-                << " n=" << nk << " keys=[";
-            for (std::size_t i = 0; i < nk; ++i)
-                out << " " << hx(__builtin_bswap64(it->get_key_slice_at(i))) << ":"
-                    << static_cast<int>(it->get_key_length_at(i));
-            out << " ] ch=[";
-            for (std::size_t i = 0; i <= nk; ++i) out << " " << idof(it->get_child_at(i));
-            out << " ]\n";
-            for (std::size_t i = 0; i <= nk; ++i) walk(it->get_child_at(i), it);
-        }
-    }
-};
+#include "drv_common.h"
 
 int main(int argc, char** argv) {
     if (argc < 2) return 2;
